@@ -52,7 +52,7 @@ class World:
     def pick(self, i):
         return self.items[i % len(self.items)]
 
-    def verify(self, name, model, op, fields_as="ordered"):
+    def verify(self, name, model, op, fields_as="ordered", computed=()):
         self.steps += 1
         self.ctx.counters["steps"] += 1
         self.ctx.label("op:" + op["op"])
@@ -61,10 +61,17 @@ class World:
         if out is None:
             v += msgs
         else:
-            v += common.compare_model(model, out, fields_as=fields_as, minmax=None)
+            v += common.compare_model(model, out, fields_as=fields_as, minmax=None, computed=computed)
             if not v and fields_as == "set":
                 perm = [model.fields.index(n) for n in out["fields"]]
                 model = model.select(perm)
+            if not v and computed:
+                # the model adopts the written bits of the computed components (equal up to NaN payloads): later copies
+                # of them are then compared bit for bit
+                for l, lev in enumerate(out["levels"]):
+                    for b, (lo, hi) in enumerate(lev["idx"]):
+                        box = model.levels[l][(tuple(lo), tuple(hi))]
+                        box["data"] = np.array(lev["data"][b][..., [out["fields"].index(n) for n in model.fields]])
         self.violations += [f"step {self.steps} {op}: {m}" for m in v]
         return model
 
@@ -178,7 +185,7 @@ def apply_op(w, op):
                                 mins=None, maxs=None)
                 levels.append(d)
             model = common.Model(kept + new_names, m.ndims, m.time, m.geo_lo, m.geo_hi, m.dx, m.grid_sizes, levels)
-            model = w.verify(name, model, op, fields_as="set")
+            model = w.verify(name, model, op, fields_as="set", computed=tuple(new_names))
             ci = w.add(name, model, src["rootid"])
             if kind == "law_cook_combine":
                 # combining the cooked field back into the original gives the original fields plus the new one
